@@ -884,6 +884,9 @@ class _DWorld:
         self.calls = []                                 # callback invocations of the current step: (agent, cbid, evt, item, val)
         self.ncb = 0
         self.flags = {}                                 # (agent, item-kind, item) -> set of region tags
+        # Agent._on_start of the agent hosting the directory
+        self.ddisc.register_computation(self.ddisc.discovery_computation.name, "agt_dir", "addr_dir")
+        self.ddisc.register_agent("agt_dir", "addr_dir")
         for n in agents:
             d = dis.Discovery(n, "addr_" + n)
             d.use_directory("agt_dir", "addr_dir")
@@ -948,7 +951,9 @@ class _DWorld:
         for (a, kind, item), s in self.subs.items():
             if a != who or not s["cbs"]:
                 continue
-            if kind == "agent":
+            if kind == "agent" and item == "*":
+                out[(kind, item)] = frozenset((n, a) for n in self.agents for a in [_ask(self.dis, d.agent_address, n)] if a != _UNK)
+            elif kind == "agent":
                 out[(kind, item)] = _ask(self.dis, d.agent_address, item)
             elif kind == "computation":
                 out[(kind, item)] = _ask(self.dis, d.computation_agent, item)
@@ -1031,6 +1036,10 @@ def _expected_events(kind, item, old, new):
     """the callback events a change of view old -> new stands for"""
     if old == new:
         return []
+    if kind == "agent" and item == "*":
+        o, n = dict(old), dict(new)
+        return [("agent_added", k, v) for k, v in sorted(n.items()) if o.get(k) != v] + \
+               [("agent_removed", k, None) for k in sorted(o) if k not in n]
     if kind == "agent":
         return [("agent_removed", item, None)] if new == _UNK else [("agent_added", item, new)]
     if kind == "computation":
@@ -1115,6 +1124,13 @@ class _DOps:
                     for n in p.get("agent_targets", w.agents):
                         if n != x:
                             out += self._sub_opts(x, "agent", n, kinds, maxcb)
+            if p.get("all_agents"):
+                for x in live:
+                    if x in p.get("subscribers", w.agents):
+                        st = w.subs.get((x, "agent", "*"))
+                        for k in ("nocb", "cb"):
+                            if k == "nocb" or not (st and st["cbs"]):
+                                out.append(("sub_all", x, k))
             for x in w.agents:
                 if x in p.get("late", ()) and x not in w.alive and x not in w.left:
                     out.append(("join", x))
@@ -1170,6 +1186,16 @@ class _DOps:
             c = op[2]
             w.replicas[c].discard(x)
             w.step(x, lambda: d.unregister_replica(c, x), "%s withdraws its replica of %s" % (x, c), "unregister_replica")
+        elif name == "sub_all":
+            s = w.subs.setdefault((x, "agent", "*"), dict(active=False, cbs=[], fns={}))
+            cb = None
+            if op[2] == "cb":
+                cb = w.make_cb(x, "agent", "*")
+                s["fns"][cb.cbid] = cb
+            w.step(x, lambda: d.subscribe_all_agents(cb), "%s subscribes to all agents (%s)" % (x, op[2]), "subscribe_all_agents")
+            s["active"] = True
+            if cb is not None:
+                s["cbs"].append((cb.cbid, False))
         elif name == "sub":
             _, _, kind, item, cbkind = op
             s = w.subs.setdefault((x, kind, item), dict(active=False, cbs=[], fns={}))
@@ -1234,6 +1260,9 @@ class _DOps:
             env.prove("discovery.%s.sends-the-matching-message-to-the-directory%s" % ("register_replica" if name == "reg_replica" else "unregister_replica",
                                                                                       self.w.region("op", x, "replica", op[2])),
                       len(new) == 1 and _msg_is(new[0], "publish_replica", replica=op[2], agent=x, publish=(name == "reg_replica")), detail=det)
+        elif name == "sub_all":
+            env.prove("discovery.subscribe_all_agents.only-sends-a-message-of-the-matching-kind-to-the-directory",
+                      len(new) <= 1 and all(_msg_is(m, "subscribe_agent", agent="*", subscribe=True) for m in new), detail=det)
         elif name in ("sub", "unsub"):
             kind, item = op[2], op[3]
             mtype, field = _SUB_MSG[kind]
@@ -1270,7 +1299,10 @@ class _DOps:
                 continue
             d = w.disc[x]
             tag = w.region("view", x, kind, item)
-            if kind == "agent":
+            if kind == "agent" and item == "*":
+                mine = {n: _ask(dis, d.agent_address, n) for n in w.agents}
+                ref = {n: _ask(dis, directory.agent_address, n) for n in w.agents}
+            elif kind == "agent":
                 mine, ref = _ask(dis, d.agent_address, item), _ask(dis, directory.agent_address, item)
             elif kind == "computation":
                 mine, ref = _ask(dis, d.computation_agent, item), _ask(dis, directory.computation_agent, item)
@@ -1289,6 +1321,12 @@ def _discovery_history(env, dis):
     w = _DWorld(env, dis, p["agents"], late=p.get("late", ()))
     ops = _DOps(w, p)
     sched = p.get("sched", "sync")
+    rng = None
+    if sched == "random":
+        import random as _pyrandom
+        # a schedule per (history, seed): drawn after the history is known, reproducible
+        seed = env.choice("seed", list(range(p.get("seeds", 3))))
+        rng = _pyrandom.Random(seed * 7919 + p.get("_seed", 0))
     for op in p.get("init", ()):
         ops.apply(tuple(op))
         w.run("fifo")
@@ -1304,6 +1342,10 @@ def _discovery_history(env, dis):
             break
         if sched == "sync":
             w.run("fifo")
+        elif sched == "random":
+            while w.raised is None and w.enabled() and rng.random() < 0.55:
+                en = w.enabled()
+                w.deliver(en[rng.randrange(len(en))])
         elif sched == "explore":
             while w.raised is None:
                 en = w.enabled()
@@ -1316,6 +1358,10 @@ def _discovery_history(env, dis):
     if w.raised is None:
         if sched == "explore":
             w.run("explore", chooser=env.choice)
+        elif sched == "random":
+            while w.raised is None and w.enabled():
+                en = w.enabled()
+                w.deliver(en[rng.randrange(len(en))])
         else:
             w.run("lifo" if sched == "end-lifo" else "fifo")
     if w.raised is not None:
